@@ -320,3 +320,27 @@ func Verif_C03_ManyClash(n, slen int) {
 	}
 	verifsym.Reach("end")
 }
+
+// Verif_C03_ManyFallback: n single-segment paths that differ only in
+// punctuation around the same symbolic segment S (slen lower-case bytes), so
+// that every candidate name is taken after the first and the numbered fallback
+// has to hand out S2, S3, ... beyond S9: every path gets a distinct valid
+// non-keyword name and the tracker invariant holds.
+func Verif_C03_ManyFallback(n, slen int) {
+	seg := vSeg(slen, 0)
+	variants := []string{seg, seg + "-", seg + ".", "-" + seg, seg + "--", "." + seg, seg + "-.", "--" + seg, seg + "..", "-." + seg, seg + ".-", ".-" + seg, seg + "---"}
+	verifsym.Assume(n <= len(variants))
+	tr := NewDefaultImportTracker()
+	var added []string
+	for _, p := range variants[:n] {
+		tr.AddType(gengotypes.Ref(p, "T"))
+		added = append(added, p)
+	}
+	vCheckTracker(tr, added)
+	for _, p := range added {
+		name := tr.LocalNameOf(p)
+		verifsym.Assert(vIsIdent(name) && !vIsKeyword(name), "a package has no valid non-keyword local name")
+	}
+	verifsym.Observe("last", tr.LocalNameOf(added[len(added)-1]))
+	verifsym.Reach("end")
+}
